@@ -39,6 +39,8 @@ func main() {
 		err = cmdLimits(os.Args[2:])
 	case "fidelity":
 		err = cmdFidelity(os.Args[2:])
+	case "drun":
+		err = cmdDRun(os.Args[2:])
 	case "longpoll":
 		err = cmdLongPoll(os.Args[2:])
 	case "leaseconc":
